@@ -71,6 +71,11 @@ func (f *Frame) applyCall(c *ssa.CallCommon, fnv Val, args []Val, st *State, pos
 	if ct := eng.callbackContract(f, c.Value); ct != nil {
 		return f.applyContract(ct, nil, sig, args, nil, st, pos, ct.Name)
 	}
+	// a function value of a type declared outside the repository (context.CancelFunc, ...) cannot
+	// reach repository state other than through its arguments
+	if n, ok := c.Value.Type().(*types.Named); ok && n.Obj().Pkg() != nil && !strings.HasPrefix(n.Obj().Pkg().Path(), repoModule) {
+		return f.havocCall("call of "+types.TypeString(n, nil)+" value", sig, args, st, false)
+	}
 	return f.havocCall("dynamic call of "+c.Value.Name()+" in "+f.fn.Name(), sig, args, st, true)
 }
 
@@ -219,7 +224,13 @@ func (f *Frame) havocHeaps(st *State, mods map[string]bool) {
 		un.havocAll(st)
 		return
 	}
+	if mods["*nonghost"] {
+		un.havocAllButGhost(st)
+	}
 	for _, k := range sortedBoolKeys(mods) {
+		if k == "*nonghost" {
+			continue
+		}
 		s, ok := un.heapSort[k]
 		if !ok {
 			s, ok = un.eng.heapSortHint[k]
@@ -228,7 +239,7 @@ func (f *Frame) havocHeaps(st *State, mods map[string]bool) {
 			}
 		}
 		un.heapInit(k, s)
-		st.H[k] = un.freshHeap(k, s)
+		st.H[k] = un.freshHeap(st, k, s)
 	}
 }
 
@@ -251,8 +262,8 @@ func (f *Frame) havocCall(name string, sig *types.Signature, args []Val, st *Sta
 		un.eng.typedHavocSet(un, args, mods)
 		un.note("external call " + name + ": result unconstrained; only memory reachable from pointer/slice/map arguments (one level, by type) is havocked")
 	}
-	f.havocHeaps(st, mods)
 	f.bumpNext(st)
+	f.havocHeaps(st, mods)
 	res, outs := f.freshResults(sig, st, "ext")
 	for _, o := range outs {
 		un.assume(st, un.typeFacts(o.Go, o.T, st, 0))
@@ -304,6 +315,29 @@ func (f *Frame) contractEnv(ct *Contract, fn *ssa.Function, args []Val, bind []V
 func (f *Frame) applyContract(ct *Contract, fn *ssa.Function, sig *types.Signature, args []Val, bind []Val, st *State, pos token.Pos, name string) Val {
 	un := f.un
 	env := f.contractEnv(ct, fn, args, bind, st)
+	// preconditions that hold for calls from this particular caller (callsite contracts)
+	if !f.pure {
+		for fr := f; fr != nil; fr = fr.parent {
+			if fr.parent != nil {
+				continue
+			}
+			for _, sc := range un.eng.callsites[fr.fn.String()+"|"+name] {
+				senv := map[string]Val{}
+				if fr == f && f.curBlock != nil {
+					for k, v := range f.baseEnv(f.curBlock, st) {
+						senv[k] = v
+					}
+				}
+				for k, v := range f.contractEnv(sc, fn, args, bind, st) {
+					senv[k] = v
+				}
+				for _, rq := range sc.Requires {
+					g := f.evalClause(rq, senv, st, st)
+					un.obligeNamed(st, fmt.Sprintf("site:%s#%d@%s", shortFn(name), rq.Idx, un.posOf(pos)), "callsite", rq.Text, un.posOf(pos), g)
+				}
+			}
+		}
+	}
 	for _, rq := range ct.Requires {
 		g := f.evalClause(rq, env, st, st)
 		if f.pure {
@@ -314,11 +348,12 @@ func (f *Frame) applyContract(ct *Contract, fn *ssa.Function, sig *types.Signatu
 		}
 	}
 	old := st.clone()
+	if !ct.Pure {
+		f.bumpNext(st)
+	}
 	// frame
 	if ct.HasMod {
-		for _, m := range ct.Modifies {
-			f.applyModEntry(m, env, st, &old)
-		}
+		f.applyMods(ct.Modifies, env, st, &old)
 	} else if ct.Pure {
 		// nothing
 	} else if fn != nil && len(fn.Blocks) > 0 {
@@ -327,9 +362,6 @@ func (f *Frame) applyContract(ct *Contract, fn *ssa.Function, sig *types.Signatu
 		mods := map[string]bool{}
 		un.eng.typedHavocSet(un, args, mods)
 		f.havocHeaps(st, mods)
-	}
-	if !ct.Pure {
-		f.bumpNext(st)
 	}
 	// a pure contract with a defining postcondition `r == e` yields e itself (usable under quantifiers)
 	if ct.Pure && sig.Results().Len() == 1 {
@@ -353,6 +385,7 @@ func (f *Frame) applyContract(ct *Contract, fn *ssa.Function, sig *types.Signatu
 								un.assume(st, f.evalClause(en2, env, st, &old))
 							}
 						}
+						f.applyRecords(ct, env, st, &old)
 						return v
 					}
 				}
@@ -372,7 +405,29 @@ func (f *Frame) applyContract(ct *Contract, fn *ssa.Function, sig *types.Signatu
 	for _, en := range ct.Ensures {
 		un.assume(st, f.evalClause(en, env, st, &old))
 	}
+	f.applyRecords(ct, env, st, &old)
 	return res
+}
+
+// applyRecords performs the `records #g := e` bookkeeping of a contract at a call site.
+func (f *Frame) applyRecords(ct *Contract, env map[string]Val, st, old *State) {
+	un := f.un
+	for _, rc := range ct.Records {
+		g := strings.TrimPrefix(strings.TrimPrefix(rc.Kind, "records:"), "#")
+		srt, ok := un.eng.ghostVars[g]
+		if !ok {
+			f.fail("%s: records: unknown ghost variable #%s", rc.Pos, g)
+		}
+		v := f.eval(rc.E, &evalCtx{env: env, cur: st, old: old})
+		if v.T.Sort == "nil" {
+			v.T = un.u.Zero(srt)
+		}
+		if v.T.Sort != srt {
+			f.fail("%s: records #%s: sort %s, expected %s", rc.Pos, g, v.T.Sort, srt)
+		}
+		un.heapInit("G_"+sanitize(g), srt)
+		un.setH(st, "G_"+sanitize(g), v.T)
+	}
 }
 
 func shortFn(name string) string {
@@ -390,21 +445,61 @@ func shortFn(name string) string {
 	return out
 }
 
-// applyModEntry havocs what one modifies entry names.
-func (f *Frame) applyModEntry(m string, env map[string]Val, st *State, old *State) {
+// applyMods havocs what a modifies clause names.
+func (f *Frame) applyMods(mods []string, env map[string]Val, st *State, old *State) {
 	un := f.un
-	for _, me := range f.resolveMod(m, env, old) {
+	var all []modEntry
+	for _, m := range mods {
+		if strings.TrimSpace(m) == "*" {
+			un.havocAllButGhost(st)
+			continue
+		}
+		all = append(all, f.resolveMod(m, env, old)...)
+	}
+	rowsDone := map[string]bool{}
+	for _, me := range all {
 		s, ok := un.heapSort[me.heap]
 		if !ok {
 			s, ok = un.eng.heapSortHint[me.heap]
 			if !ok {
-				f.fail("modifies %s: unknown heap %s", m, me.heap)
+				f.fail("modifies: unknown heap %s", me.heap)
 			}
 		}
 		h := un.H(st, me.heap, s)
-		if me.ref.S == "" {
-			st.H[me.heap] = un.freshHeap(me.heap, s)
-		} else {
+		switch {
+		case me.rows:
+			if rowsDone[me.heap] {
+				continue
+			}
+			rowsDone[me.heap] = true
+			whole := false
+			var named []Term
+			for _, m2 := range all {
+				if m2.heap != me.heap {
+					continue
+				}
+				if !m2.rows {
+					whole = true
+				} else if m2.ref.S != "" {
+					named = append(named, m2.ref)
+				}
+			}
+			if whole {
+				continue // handled by the whole-heap entry
+			}
+			hOld := un.H(old, me.heap, s)
+			nh := un.fresh(me.heap+"_rows", s)
+			un.heapTyping(me.heap, nh, un.H(st, "$next", SInt))
+			b := Term{"b!fr", SInt}
+			var excl []Term
+			for _, r := range named {
+				excl = append(excl, Neq(b, r))
+			}
+			un.assume(st, Forall([]Term{b}, Implies(And(append(excl, Le(b, un.H(old, "$next", SInt)))...), Eq(Select(nh, b), Select(hOld, b))), Select(nh, b)))
+			st.H[me.heap] = nh
+		case me.ref.S == "":
+			st.H[me.heap] = un.freshHeap(st, me.heap, s)
+		default:
 			v := un.fresh(me.heap+"_at", elemSort(s))
 			un.setH(st, me.heap, Store(h, me.ref, v))
 		}
@@ -414,6 +509,7 @@ func (f *Frame) applyModEntry(m string, env map[string]Val, st *State, old *Stat
 type modEntry struct {
 	heap string
 	ref  Term // empty: whole heap
+	rows bool // element heap: only row `ref` (if any) and rows allocated by the callee change
 }
 
 // resolveMod: "x.f" | "x.#g" | "*p" | "elems(e)" | "mapof(e)" | "#g" | "heap(N)" | "fields(x)"
@@ -427,6 +523,32 @@ func (f *Frame) resolveMod(m string, env map[string]Val, st *State) []modEntry {
 		return []modEntry{{heap: "G_" + sanitize(m[1:])}}
 	case strings.HasPrefix(m, "elems(") && strings.HasSuffix(m, ")"):
 		e, err := ParseExpr(m[6 : len(m)-1])
+		if err != nil {
+			f.fail("modifies %s: %v", m, err)
+		}
+		cv := f.eval(e, &evalCtx{env: env, cur: st, old: st})
+		sl, ok := cv.Go.Underlying().(*types.Slice)
+		if !ok {
+			f.fail("modifies %s: not a slice", m)
+		}
+		hn := un.elemHeap(sl.Elem())
+		un.heapInit(hn, ArrSort(SInt, ArrSort(SInt, un.u.SortOf(sl.Elem()))))
+		return []modEntry{{heap: hn, ref: SBase(cv.T), rows: true}}
+	case strings.HasPrefix(m, "newrows(") && strings.HasSuffix(m, ")"):
+		e, err := ParseExpr(m[8 : len(m)-1])
+		if err != nil {
+			f.fail("modifies %s: %v", m, err)
+		}
+		cv := f.eval(e, &evalCtx{env: env, cur: st, old: st})
+		sl, ok := cv.Go.Underlying().(*types.Slice)
+		if !ok {
+			f.fail("modifies %s: not a slice", m)
+		}
+		hn := un.elemHeap(sl.Elem())
+		un.heapInit(hn, ArrSort(SInt, ArrSort(SInt, un.u.SortOf(sl.Elem()))))
+		return []modEntry{{heap: hn, rows: true}}
+	case strings.HasPrefix(m, "allelems(") && strings.HasSuffix(m, ")"):
+		e, err := ParseExpr(m[9 : len(m)-1])
 		if err != nil {
 			f.fail("modifies %s: %v", m, err)
 		}
